@@ -1,7 +1,9 @@
 """prints the prompt given to a mutant-writing sub-agent for one property (only the property text + worktree)"""
 import json, sys
 pid = sys.argv[1]
-wt = sys.argv[2] if len(sys.argv) > 2 else "/tmp/wt_" + pid
+tag = sys.argv[2] if len(sys.argv) > 2 else ""
+wt = "/tmp/wt_" + pid + tag
+out = "/tmp/mut_" + pid + tag
 p = [json.loads(l) for l in open("/verif/properties.jsonl") if json.loads(l)["id"] == pid][0]
 print(f"""You are helping test a verification effort for the Python library jmschrei/tangermeme (a PyTorch genomics toolkit).
 You have your own scratch git worktree of the library at {wt} . Work ONLY inside {wt} (and /tmp for scratch files). Do NOT read, list or use anything under /verif or /repo, and do not look at other /tmp/wt_* directories.
@@ -16,11 +18,11 @@ Here is a semantic property that the library is supposed to satisfy:
 YOUR TASK: produce up to THREE *different* small source changes to the library (each as a separate patch against the unmodified worktree) that each BREAK this property while
   (a) the code still imports/compiles, and
   (b) the existing test suite still passes exactly as before: run  `cd {wt} && /venv/bin/python -m pytest -q -p no:cacheprovider tests/<relevant test files>`  (running the relevant test files is enough; the full suite takes ~2.5 min: `/venv/bin/python -m pytest -q -p no:cacheprovider`). NOTE: a handful of tests fail even on the unmodified tree (the captum tests, tests/tools/test_cmd_tomtom.py and five *pwm_to_mapping tests in tests/tools/test_fimo.py); that is expected - your change must simply not change which tests pass/fail.
-Prefer subtle, realistic bugs that need something specific to manifest - an unusual input (edge position, particular size relationship, a batch size that does not divide, etc.), a multi-step sequence of operations, or two cooperating sites that each look fine alone - NOT ones that ordinary use would expose at once. Each of the three should be a different kind of bug in a different place if possible.
+Prefer subtle, realistic bugs that need something specific to manifest - an unusual input (edge position, particular size relationship, a batch size that does not divide, etc.), a multi-step sequence of operations, or two cooperating sites that each look fine alone - NOT ones that ordinary use would expose at once. Each of the three should be a different kind of bug in a different place if possible. Look beyond the most obvious line: less-travelled keyword arguments and defaults, alternative input types (strings vs tensors vs numpy, builtin vs numpy scalars, dtypes), helper functions the public function relies on, aliasing / in-place updates of caller-owned objects, state that survives from one call to the next, and size relationships the tests never use.
 
-For each change i = 1..3 write, under /tmp/mut_{pid}/m<i>/ :
+For each change i = 1..3 write, under {out}/m<i>/ :
   - patch.diff  : `git diff` of the change against the unmodified worktree (must apply with `git apply` at the repository root)
-  - demo.py     : a small standalone program (run as `cd <repo root> && /venv/bin/python /tmp/mut_{pid}/m<i>/demo.py`, it must `import tangermeme` from the current directory - insert os.getcwd() at sys.path[0]) that exits 0 on the unmodified code and exits non-zero (assertion failure) with the change applied; it must test the PROPERTY (a behavioural statement), not the implementation detail.
+  - demo.py     : a small standalone program (run as `cd <repo root> && /venv/bin/python {out}/m<i>/demo.py`, it must `import tangermeme` from the current directory - insert os.getcwd() at sys.path[0]) that exits 0 on the unmodified code and exits non-zero (assertion failure) with the change applied; it must test the PROPERTY (a behavioural statement), not the implementation detail.
   - notes.txt   : 2-5 lines: what was changed, what it needs in order to manifest, which tests you ran.
 After producing each patch, restore the worktree (`git -C {wt} checkout -- .`) before making the next one, and verify: demo passes on clean tree, fails with patch; relevant tests pass with patch.
 Python to use: /venv/bin/python (has torch, numpy, numba, pandas, pytest). There is no network. Finish by replying with a short summary listing the three changes (one line each).""")
